@@ -112,7 +112,7 @@ func init() {
 			"arrays longer than 4 members and domains beyond the 9 values are outside the bound",
 		},
 		Phases: []explore.Phase{
-			{Name: "map-filter-single", Quick: sizes(4), Thorough: sizes(5), ShardDepth: 3, Run: func(c *explore.Chooser, x *explore.Ctx, n int) {
+			{Name: "map-filter-single", Quick: sizes(4), Thorough: sizes(6), ShardDepth: 3, Run: func(c *explore.Chooser, x *explore.Ctx, n int) {
 				dom := c15Domain(tierOf(n))
 				arr := c15Array(c, n, dom)
 				cb := c15Callbacks[c.Choose(len(c15Callbacks))]
@@ -161,7 +161,7 @@ func init() {
 					}
 				}
 			}},
-			{Name: "reduce", Quick: sizes(4), Thorough: sizes(5), ShardDepth: 3, Run: func(c *explore.Chooser, x *explore.Ctx, n int) {
+			{Name: "reduce", Quick: sizes(4), Thorough: sizes(7), ShardDepth: 3, Run: func(c *explore.Chooser, x *explore.Ctx, n int) {
 				dom := []interface{}{1.0, "1", true, "b", 2.0}
 				arr := c15Array(c, n, dom)
 				form := c.Choose(5)
@@ -216,7 +216,7 @@ func init() {
 					}
 				}
 			}},
-			{Name: "append-reverse-zip", Quick: sizes(3), Thorough: sizes(4), ShardDepth: 3, Run: func(c *explore.Chooser, x *explore.Ctx, n int) {
+			{Name: "append-reverse-zip", Quick: sizes(3), Thorough: sizes(5), ShardDepth: 3, Run: func(c *explore.Chooser, x *explore.Ctx, n int) {
 				dom := c15Domain(0)
 				a := c15Array(c, n, dom)
 				b := c15Array(c, c.Choose(3), dom)
@@ -299,7 +299,7 @@ func init() {
 					c15Expect(x, "$append(a, [[]])", doc, append(append([]interface{}{}, c15List(aa)...), []interface{}{}), false)
 				}
 			}},
-			{Name: "compositions", Quick: sizes(4), Thorough: sizes(5), ShardDepth: 3, Run: func(c *explore.Chooser, x *explore.Ctx, n int) {
+			{Name: "compositions", Quick: sizes(4), Thorough: sizes(8), ShardDepth: 3, Run: func(c *explore.Chooser, x *explore.Ctx, n int) {
 				// the operand is used again after the function was applied to it
 				arr := c15Array(c, n, []interface{}{1.0, "1", 2.0, []interface{}{1.0}})
 				form := c.Choose(10)
@@ -344,7 +344,7 @@ func init() {
 					c15Expect(x, `$map(["p", "q"], function($x){[$append(a, $x)]})`, doc, out, false)
 				}
 			}},
-			{Name: "partials-as-callbacks", Quick: sizes(3), Thorough: sizes(4), ShardDepth: 3, Run: func(c *explore.Chooser, x *explore.Ctx, n int) {
+			{Name: "partials-as-callbacks", Quick: sizes(3), Thorough: sizes(5), ShardDepth: 3, Run: func(c *explore.Chooser, x *explore.Ctx, n int) {
 				// f(?, c...) used as the function argument behaves as the lambda function($v){f($v, c...)}:
 				// same outcome on every array, member by member (the fixed arguments are the same for every call)
 				pairs := [][2]string{
@@ -384,7 +384,7 @@ func init() {
 					x.Nontrivial()
 				}
 			}},
-			{Name: "distinct-shuffle", Quick: sizes(4), Thorough: sizes(5), ShardDepth: 3, Run: func(c *explore.Chooser, x *explore.Ctx, n int) {
+			{Name: "distinct-shuffle", Quick: sizes(4), Thorough: sizes(6), ShardDepth: 3, Run: func(c *explore.Chooser, x *explore.Ctx, n int) {
 				dom := c15Domain(1)
 				arr := c15Array(c, n, dom)
 				form := c.Choose(3)
@@ -455,7 +455,7 @@ func init() {
 					c15Expect(x, "$count($distinct(a))", doc, float64(distinct), false)
 				}
 			}},
-			{Name: "aggregates", Quick: sizes(4), Thorough: sizes(5), ShardDepth: 3, Run: func(c *explore.Chooser, x *explore.Ctx, n int) {
+			{Name: "aggregates", Quick: sizes(4), Thorough: sizes(6), ShardDepth: 3, Run: func(c *explore.Chooser, x *explore.Ctx, n int) {
 				nums := []interface{}{0.0, 1.0, -2.0, 0.5, 1e308}
 				arr := c15Array(c, n, nums)
 				fn := c.Choose(5)
